@@ -2,6 +2,7 @@
 """developer helper: expand one Verus unit against VERIF_REPO and run Verus on it.  usage: tools/vu.py <unit> [-v]"""
 import os, sys, json
 sys.path.insert(0, os.path.dirname(os.path.dirname(os.path.abspath(__file__))))
+os.environ.setdefault("VERIF_SCRATCH", "/var/tmp/lexgen-vu")  # own scratch root, so that cleaning it never touches a running check
 os.environ.setdefault("VERIF_KEEP", "1")  # scratch under /var/tmp/lexgen-verif/run-* is kept for inspection: remove it afterwards
 from vlib import common as C
 r = C.run_verus_unit(sys.argv[1], 1)
